@@ -2770,7 +2770,14 @@ func extStructs() string {
 		fs := extFields[p]
 		sort.SliceStable(fs, func(i, j int) bool { return rank(fs[i]) < rank(fs[j]) })
 	}
-	sort.Slice(pk, func(i, j int) bool { return rank(extFields[pk[i]][0]) < rank(extFields[pk[j]][0]) })
+	sort.Slice(pk, func(i, j int) bool {
+		// two packages can share their first opaque function (util.ParseUtf16Var for efivar and device): break
+		// the tie by name, or the order follows the map iteration and Gen.lean differs from run to run
+		if ri, rj := rank(extFields[pk[i]][0]), rank(extFields[pk[j]][0]); ri != rj {
+			return ri < rj
+		}
+		return pk[i] < pk[j]
+	})
 	var b strings.Builder
 	for _, p := range pk {
 		if nm := extStructName(p); nm != p+".Ext" {
